@@ -19,7 +19,9 @@ var eventPayloads = map[string]func(rng *rand.Rand) []any{
 	"up":      func(rng *rand.Rand) []any { return []any{float64(rng.Intn(100)), -float64(rng.Intn(10))} },
 	"move":    func(rng *rand.Rand) []any { return []any{float64(rng.Intn(100)), float64(rng.Intn(100))} },
 	"animate": func(rng *rand.Rand) []any { return []any{float64(rng.Intn(5000))} },
-	"input":   func(rng *rand.Rand) []any { return []any{[]string{"s1", "id2"}[rng.Intn(2)], []string{"7", "val", ""}[rng.Intn(3)]} },
+	"input": func(rng *rand.Rand) []any {
+		return []any{[]string{"s1", "id2"}[rng.Intn(2)], []string{"7", "val", ""}[rng.Intn(3)]}
+	},
 }
 
 var onRe = regexp.MustCompile(`(?m)^on (\w+)(.*)$`)
@@ -74,6 +76,7 @@ func runC15(cfg Config, r *Result) {
 	}
 	defer model.Close()
 	r.Rule = "random typed programs with a random subset of the six event handlers (each declaring a prefix of the payload parameters, some as `_`), followed by a random sequence of events with payloads; implementation vs model after Eval and after every HandleEvent (outcome, effects, yields, globals dump); property oracle on the implementation: handlers rewritten as procedures + one call per event give the same effect trace; non-trivial = at least one delivered event reaches a handler; distinct = distinct (program, event list)"
+	c15Signatures(cfg, r, model)
 	n := cfg.N(400, 10000)
 	maxEv := cfg.N(10, 40)
 	for i := 0; i < n; i++ {
@@ -126,6 +129,67 @@ func runC15(cfg Config, r *Result) {
 			r.Violate(Violation{Kind: "property", Key: "events-differ-from-equivalent-procedures",
 				Detail: "delivering the events does not have the effects of calling equivalent procedures in that order",
 				Input:  map[string]any{"program": src, "events": evs, "procedures": psrc}, Impl: map[string]any{"events": a, "procedures": b}})
+		}
+	}
+}
+
+// c15Signatures: "any handler signatures the parser accepts". Every event x parameter-list variation (the documented
+// types, `_`, fewer parameters, one parameter retyped as any / num / string / bool / []num / {}any, an extra parameter): the
+// parser decides; for an ACCEPTED signature every delivered event must run the handler like the equivalent procedure call
+// (implementation vs model, and events vs procedures even when a phase fails).
+func c15Signatures(cfg Config, r *Result, model *Model) {
+	retypes := []string{"", "any", "num", "string", "bool", "[]num", "{}any"}
+	for _, h := range handlerSigs {
+		for nDecl := 0; nDecl <= len(h.params)+1; nDecl++ {
+			for pos := -1; pos < nDecl; pos++ {
+				for _, rt := range retypes {
+					if (pos < 0) != (rt == "") {
+						continue
+					}
+					hdr := "on " + h.name
+					var used []string
+					for j := 0; j < nDecl; j++ {
+						name, ty := fmt.Sprintf("p%d", j), "num"
+						if j < len(h.params) {
+							ty = h.params[j].t.String()
+						}
+						if j == pos {
+							ty = rt
+						}
+						if cfg.Rng.Intn(5) == 0 {
+							name = "_"
+						} else {
+							used = append(used, name)
+						}
+						hdr += " " + name + ":" + ty
+					}
+					src := "g := 0\n" + hdr + "\n    g = g + 1\n    print \"h\" g " + strings.Join(used, " ") + "\nend\nprint \"top\" g\n"
+					evs := []SemEvent{{Name: h.name, Params: eventPayloads[h.name](cfg.Rng)}, {Name: h.name, Params: eventPayloads[h.name](cfg.Rng)}}
+					d := semCase(model, r, src, SemOpts{StopAt: -1, Events: evs, YieldBudget: 50000}, true, "sig:")
+					if d.Impl.ParseErr != "" || len(d.Impl.Phases) == 0 {
+						r.Dist("sig:rejected-by-parser")
+						continue
+					}
+					r.Dist("sig:accepted-by-parser")
+					psrc, _ := c15AsProcedures(src, evs)
+					pr := ImplRun(psrc, SemOpts{StopAt: -1, YieldBudget: 50000})
+					if pr.ParseErr != "" || len(pr.Phases) == 0 || pr.Phases[0].Class != "ok" {
+						continue
+					}
+					a, b := flatTrace(d.Impl), flatTrace(pr)
+					bad := strings.Join(a, "\x1e") != strings.Join(b, "\x1e")
+					for _, ph := range d.Impl.Phases {
+						if ph.Class != "ok" {
+							bad = true
+						}
+					}
+					if bad {
+						r.Violate(Violation{Kind: "property", Key: "accepted-handler-signature-does-not-run-like-procedure",
+							Detail: "the parser accepts this handler signature, the equivalent procedure calls run normally, but delivering the events does not have the same effects",
+							Input:  map[string]any{"program": src, "events": evs, "procedures": psrc}, Impl: map[string]any{"events": d.Impl.Phases, "procedures": b}})
+					}
+				}
+			}
 		}
 	}
 }
